@@ -4,6 +4,7 @@ import copy
 import json
 import os
 import subprocess
+import time
 
 import gen_mech
 import vlib
@@ -75,6 +76,32 @@ def shared_factory_state(dirty):
             or d["method"] == "WithConfig"]
 
 
+# package-level variables of the mechanism packages and of the packages templates / expressions / values are built
+# from, as of the reviewed tree (sentinel errors are not listed: type `error`).  A variable that is not on the list
+# is no violation - what it does may well be harmless - but state kept per PROCESS is exactly what the write footprint
+# of a mechanism method cannot see when the write happens inside a library (text/template's shared name space of the
+# templates derived from one base template): the run then also tries the named-template and the look-alike grids.
+KNOWN_PACKAGE_STATE = {
+    "internal/rules/mechanisms.Module",
+    "internal/rules/mechanisms/authenticators.authenticatorTypeFactories",
+    "internal/rules/mechanisms/authenticators.authenticatorTypeFactoriesMu",
+    "internal/rules/mechanisms/authorizers.authorizerTypeFactories",
+    "internal/rules/mechanisms/authorizers.authorizerTypeFactoriesMu",
+    "internal/rules/mechanisms/cellib.errType", "internal/rules/mechanisms/cellib.errTypeDef",
+    "internal/rules/mechanisms/cellib.ipNetworksType",
+    "internal/rules/mechanisms/contextualizers.typeFactories", "internal/rules/mechanisms/contextualizers.typeFactoriesMu",
+    "internal/rules/mechanisms/errorhandlers.errorHandlerTypeFactories",
+    "internal/rules/mechanisms/errorhandlers.errorHandlerTypeFactoriesMu",
+    "internal/rules/mechanisms/finalizers.typeFactories", "internal/rules/mechanisms/finalizers.typeFactoriesMu",
+}
+
+
+def new_package_state(info):
+    """package-level variables (other than sentinel errors) the reviewed tree does not have"""
+    return [v for v in info.get("package_state") or []
+            if v.get("type") != "error" and v["pkg"] + "." + v["name"] not in KNOWN_PACKAGE_STATE]
+
+
 def trusted_list(name):
     src = open(os.path.join(vlib.LEAN, "HeimdallModel", "Model", "Footprint.lean")).read()
     body = src.split("def %s : List String := [" % name, 1)[1].split("]", 1)[0]
@@ -105,6 +132,11 @@ def with_eff(case, model):
     for k, (_, _, spec) in enumerate(objects(c)):
         spec["eff"] = effs[k] if k < len(effs) else None
         spec["eff_spec"] = specs[k] if k < len(specs) else None
+    # what the model says an execution renders (own template texts of the named-template fragment, own definitions)
+    wants = model.get("want", []) if isinstance(model, dict) else []
+    for i, op in enumerate(c["ops"]):
+        if op["op"] == "exec" and i < len(wants) and wants[i] is not None:
+            op["want"] = wants[i]
     return c
 
 
@@ -152,6 +184,16 @@ def explain(case, i, a, b, ob, gr, handle, what_op):
                     f"answered {same} request(s) like it (representation only)", False)
         return (f"{what_op}: the object a rule gets is not the catalogue configuration overlaid with the rule's own "
                 "settings (differs from the same configuration loaded on its own)", True)
+    if b.get("ran") and b.get("rendered") is False and a.get("rendered") is True:
+        det = ob.get("rendering") or {}
+        if det.get("not_rendered"):
+            why = (f"expected {json.dumps(det['not_rendered'])[:200]} (its own template text rendered with its own "
+                   "named templates) in what the execution produced")
+        else:
+            why = "its template uses a named template it does not define, and was rendered nevertheless"
+        return (f"{what_op}: the object did not render its own template — {why}: what a mechanism renders depends on "
+                "templates of other objects created in the same process (named templates: define / block / template)",
+                True)
     if b.get("ran") and b.get("ref") is False and a.get("ref") is True:
         return (f"{what_op}: the object answered differently from the same configuration loaded on its own", True)
     if b.get("par_ok") is False:
@@ -276,6 +318,7 @@ def shrink(exe, case, what_class, env=None):
 # ---------------------------------------------------------------------------------------------------------------
 
 def run(R):
+    t_start = time.time()
     err, info = regenerate(R)
     lean_ok = vlib.step_lean(R, PID)
     # both tiers run the implementation under the race detector: the interleaving of WithConfig with Execute and
@@ -288,12 +331,16 @@ def run(R):
         R.violation("harness does not build against the repository", {"build_log": log[-3000:]}, no_input=True)
         return
     corpus = vlib.load_corpus(PID)
-    n, ncold, nlook = (132, 28, 48) if R.tier == "quick" else (4000, 800, 1200)
+    n, ncold, nlook, nnamed = (132, 28, 48, 24) if R.tier == "quick" else (4000, 800, 1200, 600)
     cases = corpus + [gen_mech.gen_case(R.rng) for _ in range(n)] + [gen_mech.gen_cold_case(R.rng) for _ in range(ncold)]
     # look-alike overrides: one factory creates, for the same catalogue entry, variants from configs that differ in type
     # or structure but print alike (some of them refused by the type's decoder), in any order
     look = [gen_mech.gen_lookalike_case(R.rng) for _ in range(nlook)]
     cases += look
+    # named templates: the same template name declared differently in the catalogue prototype, in rule-level overrides
+    # and in other mechanisms of the process, both creation orders, every earlier object executed after each creation
+    named = [gen_mech.gen_named_case(R.rng) for _ in range(nnamed)]
+    cases += named
     model, impl = run_both(exe, cases, env=env)
 
     stats = collections.Counter()
@@ -359,26 +406,21 @@ def run(R):
                 stats["inconclusive_executions"] += ob.get("inconclusive", 0)
                 stats["variants_created_during_execution"] += ob.get("created_concurrently", 0)
 
-    # the behaviour of a mechanism object is a function of (type, id, effective configuration, request): whatever else
-    # was created or executed before, in the same or in any other case, must not matter
-    for key, outs in behaviour.items():
-        if len(outs) > 1:
-            (o1, (c1, i1)), (o2, (c2, i2)) = list(outs.items())[:2]
-            R.violation("two mechanism objects of the same type and id with the same effective configuration answered the same "
-                        "request differently: the behaviour of a rule's mechanism depends on what else was loaded or "
-                        "executed", {"case": c1, "operation": i1, "impl": json.loads(o1), "other_case": c2,
-                                     "other_operation": i2, "other_impl": json.loads(o2), "key": json.loads(key),
-                                     "kind": "history"}, no_input=False)
-
     dirty = dirty_rows(info)
     # The static footprint reports state that the creations of one factory share (a map / sync.Map / cache field written
     # by mechanismsFactory.Create* or by a WithConfig) and the stream above shows nothing concrete: what such state can
     # do to "each rule observes the catalogue configuration overlaid with its OWN overrides" is to hand a rule the
     # variant of an earlier one.  Try exactly those histories: every type x every look-alike family x every ordered
     # pair of members.
+    # The same for state per process: a package-level variable the reviewed tree does not have in the packages the
+    # mechanisms (and their templates, expressions, values) are built from - a `sync.Once` / `sync.OnceValue`, a lazily
+    # filled map.  What it holds may live inside a library where the footprint cannot look (the name space of named
+    # templates shared by all templates derived from one base template): every template site x form of named template x
+    # history shape (prototype / override / other mechanism, both orders) is tried as well.
     searched = 0
-    if shared_factory_state(dirty) and not concrete:
-        grid = gen_mech.lookalike_grid(R.rng)
+    new_state = new_package_state(info)
+    if (shared_factory_state(dirty) or new_state) and not concrete:
+        grid = gen_mech.lookalike_grid(R.rng) + gen_mech.named_grid(R.rng)
         searched = len(grid)
         gm, gi = run_both(exe, grid, env=env)
         for c, m, g in zip(grid, gm, gi):
@@ -386,9 +428,11 @@ def run(R):
             if j is not None:
                 (concrete if j[1] else structural).append((c, m, g, j))
         cases += grid
-    for c, m, g, j in concrete[:3]:
+    for k, (c, m, g, j) in enumerate(concrete[:3]):
         what, _, i, details = j
-        small = shrink(exe, c, True, env=env) if i is not None else c
+        # every probe of the shrinker is a harness process of its own (the state of a process is part of what is
+        # searched): the first report is always shrunk, the others while the quick budget lasts
+        small = shrink(exe, c, True, env=env) if i is not None and (k == 0 or time.time() - t_start < 45) else c
         sm, sg = run_both(exe, [small], env=env, timeout=300)
         if judge(small, sm[0], sg[0]) is None:
             small, sm, sg = c, [m], [g]
@@ -401,6 +445,26 @@ def run(R):
                                                      f"{sorted({w['what'] for w in d['effects']})[:2]}" for d in dirty[:2]) + "]"
         R.violation(j2[0] + extra, {"case": small, "impl": vlib.res_of(sg[0]), "model": vlib.res_of(sm[0]),
                                    "details": j2[3], "dirty_footprints": dirty[:6], "kind": "property"}, no_input=False)
+    # the behaviour of a mechanism object is a function of (type, id, effective configuration, request): whatever else
+    # was created or executed before, in the same or in any other case, must not matter
+    nhist = 0
+    for key, outs in behaviour.items():
+        if len(outs) > 1:
+            nhist += 1
+            if nhist > 3:
+                continue
+            (o1, (c1, i1)), (o2, (c2, i2)) = list(outs.items())[:2]
+            same_obj = c1 is c2 and c1["ops"][i1]["h"] == c2["ops"][i2]["h"]
+            R.violation(("one mechanism object answered the same request differently at two points of one history "
+                         f"(operations {i1} and {i2}): what a loaded mechanism does was changed by what was created or "
+                         "executed in between" if same_obj else
+                         "two mechanism objects of the same type and id with the same effective configuration answered the "
+                         "same request differently: the behaviour of a rule's mechanism depends on what else was loaded or "
+                         "executed"), {"case": c1, "operation": i1, "impl": json.loads(o1), "other_case": c2,
+                                      "other_operation": i2, "other_impl": json.loads(o2), "key": json.loads(key),
+                                      "kind": "history"}, no_input=False)
+    if nhist:
+        R.coverage["history_oracle_keys_with_two_answers"] = nhist
     for c, m, g, j in structural[:3]:
         small = shrink(exe, c, False, env=env)
         sm, sg = run_both(exe, [small], env=env, timeout=300)
@@ -433,8 +497,12 @@ def run(R):
                 "a creation that produced a variant; distinct by (mechanism type, keys of the override, created during a "
                 "batch or not, reference fields replaced)",
         "known_finding_hits": dict(R.known_hits),
-        "cases": len(cases), "corpus_cases": len(corpus), "lookalike_cases": len(look),
-        "lookalike_grid_cases_searched_because_of_dirty_factory_footprint": searched,
+        "cases": len(cases), "corpus_cases": len(corpus), "lookalike_cases": len(look), "named_template_cases": len(named),
+        "grid_cases_searched_because_of_dirty_factory_footprint_or_new_package_state": searched,
+        "package_state_variables": len(info.get("package_state") or []),
+        "package_state_not_in_reviewed_tree": [v["pkg"] + "." + v["name"] + " : " + v["type"] +
+                                               (" := " + v["init"] + "(…)" if v.get("init") else "")
+                                               for v in new_state],
         "creates_by_type": dict(by_type),
         "creates_by_outcome": dict(by_status), "executions_by_outcome": dict(exec_err),
         "behaviour_keys": len(behaviour), "model_stats": dict(stats), "race_detector": race,
@@ -455,6 +523,14 @@ def run(R):
         "reload callbacks (jwtSigner.OnChanged, HTTPMessageSignatures.OnChanged) replace key material of objects "
         "mechanisms share: excluded from 'never changes' (C16 owns what a reload does), covered only by the obligation "
         "that they write under the write lock and the jwt finalizer reads under the read lock; a reload is not exercised",
+        "templates: the model renders the fragment of text/template that can carry state from one template to another "
+        "(literal text, `.Subject.ID` / `.Request.Method`, define / block / template) with the template's OWN "
+        "definitions; the implementation side looks for that rendering in what the execution produced (upstream headers "
+        "/ cookies, claims of the issued JWT, outputs, redirect target, the request echoed by the test server), quoting "
+        "and white space aside (the named-template cases are built so that the execution gets as far as rendering); every other template (pipelines, sprig functions, "
+        "if / range / with, variables, comments, delimiters) is compared as before: behaviour of the object = behaviour "
+        "of its effective configuration loaded on its own, and equal (type, id, configuration, request) => equal answer "
+        "over the whole run. text/template and sprig themselves are trusted",
         "value-level validation of a rule's config is not modelled: operations marked `invalid` by the generator are "
         "taken as rejected (Override.valuesOk = false) and the run checks the rejection and that nothing changed",
         "runtime influence between variants through a shared cache (prototype and variants share the id, a prefix of "
